@@ -496,7 +496,7 @@ theorem copyRef_safe (X : Ctx) (hX : NoClassDnc X) :
         | inst c thaw fs =>
           simp only [hX c]
           refine (Safe.alloc _).bind (fun j hj => ?_)
-          refine (copyFields_safe _ (ih) (X.cd c) j c thaw hj fs [] m hm).bind (fun m1 hm1 => ?_)
+          refine (copyFields_safe _ (ih) (X.cd c) j c false hj fs [] m hm).bind (fun m1 hm1 => ?_)
           have hpc : Safe n₀ W (if (X.cd c).postCopy = true then callCb .postCopy else pure ())
               (fun _ => True) :=
             Safe.ite (fun _ => Safe.callCb _) (fun _ => Safe.pure trivial)
